@@ -117,7 +117,7 @@ func goodBytes(e Entry) []byte {
 	switch e.Kind {
 	case "goodT":
 		f.T = 5
-		return jrn.FeedBytes(f)
+		return endingInNewline(jrn.FeedBytes(f))
 	case "goodR":
 		all := jrn.FeedBytes(f)
 		hdr := jrn.FeedBytes(jrn.Feed{T: f.T})
@@ -126,7 +126,28 @@ func goodBytes(e Entry) []byte {
 		}
 		return append(append([]byte(nil), all[len(hdr):]...), hdr...)
 	}
-	return jrn.FeedBytes(f)
+	return endingInNewline(jrn.FeedBytes(f))
+}
+
+// endingInNewline re-serialises a message so that its very last byte is 0x0a: the trip-level delay of the last trip
+// update (a field no parser here surfaces) is set to 10. A reader that "tidies" the bytes of a file before parsing
+// them damages such a message.
+func endingInNewline(b []byte) []byte {
+	m := &gtfsrt.FeedMessage{}
+	if err := proto.Unmarshal(b, m); err != nil || len(m.Entity) == 0 || m.Entity[len(m.Entity)-1].TripUpdate == nil {
+		return b
+	}
+	last := m.Entity[len(m.Entity)-1]
+	if last.Vehicle != nil || last.Alert != nil {
+		return b
+	}
+	d := int32(10)
+	last.TripUpdate.Delay = &d
+	out, err := proto.Marshal(m)
+	if err != nil || out[len(out)-1] != 0x0a {
+		panic("harness: message does not end in 0x0a")
+	}
+	return out
 }
 
 type Pop struct {
